@@ -142,6 +142,8 @@ type World struct {
 	// timers etc.
 	savedTimings objects.VerifTimings
 	Inconclusive string
+	// stuckTerminated names a terminated application that was still listed by the partition when settle gave up
+	stuckTerminated string
 	// ReloadGen produces the configuration for a Reload op (mutation of the current one); optional
 	ReloadGen func(t *rapid.T, w *World) string
 }
@@ -265,16 +267,18 @@ func (w *World) settle() bool {
 	case <-time.After(10 * time.Second):
 		return false
 	}
-	deadline := time.Now().Add(5 * time.Second)
+	deadline := time.Now().Add(10 * time.Second)
 	for {
 		busy := false
 		part := w.part()
 		if part == nil {
 			return true
 		}
+		w.stuckTerminated = ""
 		for _, a := range part.GetApplications() {
 			if a.IsCompleted() || a.IsFailed() {
 				busy = true
+				w.stuckTerminated = a.ApplicationID + " (" + a.CurrentState() + ")"
 				break
 			}
 		}
